@@ -17,6 +17,7 @@ func runC02(p *core.Prog, r *core.Result) {
 		"R2.1 no nondeterminism source (clock, pid, random numbers, directory order, addresses, Go-map order into an ordered sink) is reachable from the code that computes or compares stamps",
 		"R2.2 source files are compared by content hash: the verdict 'up to date' is returned exactly on equality of the recorded sum and the sum of the current contents; no modification time is consulted",
 		"R2.3 loading a target rewrites the record it has just read with every decision-relevant field (all but the documentation) unchanged, field by field over the record type: a load cannot drop the stamp dependents compare",
+		"R2.5 the current environment of a function (functionEnv) is not computed from anything reachable from loadFunction: it is taken only after every module has finished executing, so it is complete",
 		"R2.4 both sides of the environment comparison are produced by the same decoder/unpickler, and the persisted stamp by the same pickler as the current one",
 	}
 	r.NotDecided = []string{"that unrelated edits (comments, whitespace, other packages) leave the compiled bytecode and constants of a function unchanged (a property of the Starlark compiler)", "behaviour across process restarts and load interleavings as observed"}
@@ -27,6 +28,31 @@ func runC02(p *core.Prog, r *core.Result) {
 
 	// ---- R2.2
 	checkSourceCompare(p, r, "R2.2")
+
+	// ---- R2.5 the current environment is computed when the target is checked, not while modules are still loading
+	if fe, lf := p.Func("", "", "functionEnv"), p.Func("", "Project", "loadFunction"); fe != nil && lf != nil {
+		roots := []*ssa.Function{lf}
+		if fl := p.Func("", "function", "load"); fl != nil {
+			roots = append(roots, fl)
+		}
+		reach := staticClosure(p, roots...)
+		if reach[fe] {
+			// name the path's first hop for the report
+			via := ""
+			for f := range reach {
+				for _, c := range core.Calls(f) {
+					if core.Callee(c) == fe {
+						via = fname(f)
+					}
+				}
+			}
+			r.Bad("R2.5", "dawn.functionEnv#not-during-load", p.Pos(fe.Pos()), "the current environment of a target function is computed (in %s) from code reachable from loadFunction, i.e. while the defining module is still executing: globals assigned later in the module are missing from it (ModuleEnv skips unset globals), whereas the environment stored after a run is complete - every later load then sees a difference and rebuilds an unchanged tree", via)
+		} else {
+			r.OK("R2.5", "dawn.functionEnv#not-during-load", p.Pos(fe.Pos()), "not reachable from loadFunction / (*function).load (%d functions): the current environment is taken when the target is checked, after all modules have loaded", len(reach))
+		}
+	} else {
+		r.Unk("R2.5", "anchor:dawn.functionEnv/loadFunction", "-", "not found")
+	}
 
 	// ---- R2.3
 	checkLoadRewritesRead(p, r, "R2.3")
